@@ -1409,6 +1409,10 @@ pub fn run_c16() {
         rep.set(&format!("activations_{k}"), *v);
     }
     rep.set("rule", "explicit-state BFS over operation histories on the real KBucketsTable<NodeId, Enr> built with the real IpTableFilter/IpBucketFilter; every record is signed by a key bound to exactly one table key; oracle over buckets_iter() after every call");
+    // service level: `ip_limit()` in every listen mode
+    let (offered, svc) = crate::ssim::c16_service_level();
+    rep.set("service_level_records_offered", offered);
+    found.extend(svc);
     for v in found {
         rep.violation(v);
     }
